@@ -32,7 +32,7 @@ CONSTANTS
   Waits,      \* numbers of ticks the client may let pass before a command (only matters once authorized)
   MaxDepth,   \* commands per connection
   MaxNow,     \* clock bound (quarter seconds)
-  HttpReqs    \* set of HTTP requests [port: "http"|"https", cert, route: "ping"|"pub"]; {} switches HTTP off
+  HttpReqs    \* set of HTTP requests [port: "http"|"https", cert, route, see OkStatus]; {} switches HTTP off
 
 TickUnits   == 3
 SecondUnits == 4
@@ -216,13 +216,18 @@ Cmd(c) ==
 (* HTTP listeners: nsqd.Main wires newHTTPServer(n, false, TLSRequired == TLSRequired) on the plaintext port *)
 (* and newHTTPServer(n, true, true) on the TLS port; httpServer.ServeHTTP refuses with 403 when             *)
 (* !tlsEnabled && tlsRequired.  The HTTP API never consults the auth server.                                *)
+(* routes: "ping" GET /ping, "pub" POST /pub, "pprof" GET /debug/pprof/cmdline (registered as a plain net/http      *)
+(* handler, not through the API decorator), "unknown" a path no route matches (the router's NotFound handler),       *)
+(* "badmethod" GET /pub (the router's MethodNotAllowed handler).  The refusal is the LISTENER's: it comes before      *)
+(* any routing, so all five are refused alike.                                                                       *)
+OkStatus(route) == CASE route = "unknown" -> 404 [] route = "badmethod" -> 405 [] OTHER -> 200
 HttpOut(h) ==
   LET okeff == IF h.route = "pub" THEN Enqueue(Base, "t1", 1) ELSE Base IN
   IF h.port = "http"
-  THEN IF EffTLS(policy) = "yes" THEN [b |-> Base, status |-> 403] ELSE [b |-> okeff, status |-> 200]
+  THEN IF EffTLS(policy) = "yes" THEN [b |-> Base, status |-> 403] ELSE [b |-> okeff, status |-> OkStatus(h.route)]
   ELSE IF ~policy.tlscfg THEN [b |-> Base, status |-> -1]            \* no TLS listener
   ELSE IF ~CertOK(policy, h.cert) THEN [b |-> Base, status |-> -2]   \* handshake refused
-  ELSE [b |-> okeff, status |-> 200]
+  ELSE [b |-> okeff, status |-> OkStatus(h.route)]
 
 HttpAt(h) ==
   LET r == HttpOut(h) IN
@@ -281,7 +286,7 @@ PlainHttpRefused ==
      /\ (EffTLS(policy) = "http" => last.status # 403)
      /\ (last.status = 403 => EffectsSame)
 HttpsNeedsCert ==
-  (last.kind = "http" /\ last.c.t = "https" /\ last.status = 200) => policy.tlscfg /\ CertOK(policy, last.c.cert)
+  (last.kind = "http" /\ last.c.t = "https" /\ last.status > 0) => policy.tlscfg /\ CertOK(policy, last.c.cert)
 
 \* with an auth server configured no PUB/MPUB/DPUB/SUB is executed before a successful AUTH
 NoPubSubBeforeAuth ==
@@ -329,7 +334,7 @@ QueryCountLaw ==
      + Cardinality({i \in 1..Len(hist) : /\ Gated(hist[i].s.c.op) /\ hist[i].s.o.check # "n/a"
                                           /\ hist[i].s.pre.authed /\ hist[i].s.pre.exp < hist[i].s.pre.now})
 \* nothing is refused on the plaintext port when TLS is not required at all
-PlainHttpServed == (last.kind = "http" /\ last.c.t = "http" /\ EffTLS(policy) = "no") => last.status = 200
+PlainHttpServed == (last.kind = "http" /\ last.c.t = "http" /\ EffTLS(policy) = "no") => last.status = OkStatus(last.c.c)
 \* the code's evaluation of an answer never allows what the answer does not grant
 CodeStricter == \A t \in Topics, c \in Channels \cup {""} : CodeAllows(grants, t, c) => Granted(grants, t, c)
 \* the lattice keeps every comparison away from the expiry instant
